@@ -448,7 +448,9 @@ def check_word_ops(fx, rep):
                     if other is None:
                         continue
                     ot = T.term(other, T.Env())
-                    sign_dep = ot[0] == "if" and any(st[0] == "bin" and st[1] in ("Lt", "Ge", "Gt", "Le") for st in T.subterms(ot[1])) and any("MINUS_ONE" in str(st) or "MAX" in str(st) or st == ("un", "Neg", ("lit", "1")) for st in T.subterms(ot))
+                    tests_sign = any(st[0] == "bin" and st[1] in ("Lt", "Ge", "Gt", "Le") for st in T.subterms(ot[1])) or any(st[0] == "call" and isinstance(st[1], str) and F.strip_generics(st[1]).split("::")[-1] in ("is_negative", "is_positive", "signum") for st in T.subterms(ot[1])) if ot[0] == "if" else False
+                    minus_one = any("MINUS_ONE" in str(st) or st == ("un", "Neg", ("lit", "1")) or (st[0] == "un" and st[1] == "Neg" and "ONE" in str(st[2])) or (st[0] == "un" and st[1] == "Not" and "ZERO" in str(st[2])) for st in T.subterms(ot))
+                    sign_dep = ot[0] == "if" and tests_sign and minus_one
                     if signed == "yes":
                         rep.oblige(sign_dep, "R09.3", f"out-of-range:{op}", F.loc(other["span"]), f"known-word `{op}`: for shift amounts >= 256 the result must be all copies of the sign bit (-1 for a negative value, 0 otherwise); the out-of-range branch yields `{T.short(ot)[:60]}`")
                     else:
